@@ -7,6 +7,7 @@ import Driver.Lock
 import Driver.HashTbl
 import Driver.ListTbl
 import Driver.Conf
+import Driver.HashArr
 
 def main (args : List String) : IO UInt32 := do
   match args with
@@ -21,4 +22,5 @@ def main (args : List String) : IO UInt32 := do
   | ["hashtbl"] => Driver.HashTbl.run; return 0
   | ["listtbl"] => Driver.ListTbl.run; return 0
   | ["conf"] => Driver.Conf.run; return 0
+  | ["hasharr"] => Driver.HashArr.run; return 0
   | _ => IO.eprintln "usage: qdriver <module>"; return 2
